@@ -111,6 +111,32 @@ pub fn kernel_open(rootfd: i32, path: &str, oflags: i32, no_symlinks: bool) -> R
     sys::openat2(rootfd, path.as_bytes(), oflags as u32 as u64, 0, res)
 }
 
+/// The kernel's ELOOP is not a function of the tree for paths that cross
+/// 21..40 symlinks (the link count survives an RCU-walk restart). Whenever the
+/// kernel is the oracle, a disagreement in which one side says ELOOP is
+/// therefore classified before it is reported:
+///  * K universe: the library's answer is itself a kernel answer - the kernel
+///    disagrees with itself; counted, not reported (returns None);
+///  * E universe and the library followed more than 20 links: the documented
+///    difference in the symlink budget (clause "symlink-budget-differs");
+///  * otherwise the clause is reported unchanged.
+pub fn eloop_triage(clause: &str, detail: &str, kernel_backend: bool, links_followed: usize) -> Option<String> {
+    if !(detail.contains("ELOOP") || detail.contains("Too many levels of symbolic links") || detail.contains("errno: 40")) {
+        return Some(clause.to_string());
+    }
+    if kernel_backend {
+        return None;
+    }
+    if links_followed > 20 {
+        return Some("symlink-budget-differs".to_string());
+    }
+    Some(clause.to_string())
+}
+
+pub fn links_followed(out: &crate::sup::RunOut, rec: &crate::sup::OpRecord) -> usize {
+    out.trace.iter().filter(|e| e.step >= rec.begin_step && e.step <= rec.end_step && e.thread == rec.thread && e.nr == libc::SYS_readlinkat).count()
+}
+
 pub fn uni_from_extra(b: &Batch) -> UniCfg {
     b.uni.clone()
 }
